@@ -7,7 +7,7 @@
 //! case:  Q <cap|u> <ctor> <actions>      ctor: 0 = builder without handler, 1 = builder (capacity, then handler),
 //!                                        2 = builder (handler, then capacity), 3 = QueuingMetricSink::from / ::with_capacity
 //!   actions = comma list of  E<h>[e|l|u|s] (emit on handle h; payload shape: empty string / 100 kB / non-ASCII / bare number) | C<h> (clone h) | D<h> (drop h) | U<h> (h dropped by a thread unwinding from a panic)
-//!             | Rk | Re<id> | Rp (release the metric in the gate with Ok / Err(id) / panic) | S (sample counters)
+//!             | Rk | Rz | Re<id> | Rp (release the metric in the gate with Ok(len) / Ok(0) / Err(id) / panic) | S (sample counters)
 //!             | F<h> (flush() on handle h; observation l, or le when it returned an error)
 //!   handles are numbered in creation order, 0 = the original
 //! observation:  A:<per action, comma list>|DL:<delivered>|H:<handled>|X:<final>
@@ -28,6 +28,8 @@ use std::time::{Duration, Instant};
 #[derive(Clone, Debug, PartialEq)]
 pub enum Outcome {
     Ok,
+    /// accepted, answering Ok(0) - what NopMetricSink answers, and what the trait's documentation allows any sink to
+    Zero,
     Err(u64),
     Panic,
 }
@@ -102,6 +104,7 @@ impl MetricSink for GatedSink {
         }
         match o {
             Outcome::Ok => Ok(metric.len()),
+            Outcome::Zero => Ok(0),
             // the io::ErrorKind varies with the payload id (id 8 -> Interrupted, 5 -> WouldBlock, 9 -> Other ...)
             Outcome::Err(id) => Err(io::Error::new(crate::wire::IO_KINDS[id as usize % crate::wire::IO_KINDS.len()], Payload(id))),
             Outcome::Panic => panic!("scripted panic of the wrapped sink"),
@@ -129,7 +132,7 @@ pub fn gate_stats(gate: &Gate) -> cadence::SinkStats {
     let mut s = cadence::SinkStats::default();
     for (m, o, _) in st.log.iter() {
         match o {
-            Outcome::Ok => {
+            Outcome::Ok | Outcome::Zero => {
                 s.bytes_sent += m.len() as u64;
                 s.packets_sent += 1;
             }
@@ -580,6 +583,7 @@ pub fn run_case(line: &str) -> String {
             "R" => {
                 let outcome = match arg {
                     "k" => Outcome::Ok,
+                    "z" => Outcome::Zero,
                     "p" => Outcome::Panic,
                     _ => Outcome::Err(arg[1..].parse().unwrap()),
                 };
@@ -655,7 +659,7 @@ pub fn run_case(line: &str) -> String {
                     "{}:{}",
                     idx(m),
                     match o {
-                        Outcome::Ok => "k".to_string(),
+                        Outcome::Ok | Outcome::Zero => "k".to_string(),
                         Outcome::Err(id) => format!("e{}", id),
                         Outcome::Panic => "p".to_string(),
                     }
@@ -997,7 +1001,7 @@ mod sched {
                         "{}:{}",
                         accepted.iter().position(|x| x == m).map(|i| i.to_string()).unwrap_or_else(|| "?".to_string()),
                         match o {
-                            Outcome::Ok => "k".to_string(),
+                            Outcome::Ok | Outcome::Zero => "k".to_string(),
                             Outcome::Err(id) => format!("e{}", id),
                             Outcome::Panic => "p".to_string(),
                         }
